@@ -30,6 +30,7 @@ EXPLANATION = (
   ' (STATE-share) no assignment stores a container field of one object (a field the package updates in place) into a field of another object without copying it, so an in-place update of one object never changes another;'
   " (ITEM-source) an object built once per item of an inner loop is filled only with values that derive from that item or do not vary with the loops, never with a value of the enclosing container standing where the item's own belongs;"
   ' (COVER-content) the test that decides which elements extend the cached content interval covers every leaf kind that snapshot generation treats as text (line breaks, text nodes), directly or through every kind that may contain it;'
+  ' (LOOP-break) no loop over the items of a collection is left by a branch that does nothing but `break` on a test about the item (end-of-input sentinels, flags set in the loop body and searches whose variable is read afterwards excepted): an item that is to be skipped does not end the processing of the items after it;'
 )
 RULE_TEXT = "per mutator call / mutating call argument, per copy_to variant x field, per early return, per module-level store"
 UNDECIDED = ["equality of cached and uncached results over all documents and times", "equality of repeated calls as values",
